@@ -419,6 +419,41 @@ def weave(e_src, e0_src, p_src):
     return w
 
 
+def exec_annotations(e0_src, p_src):
+    """lint: annotation tokens must be specification/proof text. Flags `let` bindings inserted at exec level (not
+    `let ghost/tracked`, not inside proof{} / by{} / assert / spec or proof fn bodies / closure contracts)."""
+    e0_toks, p_toks = lex(e0_src), lex(p_src)
+    if not e0_toks:
+        return []
+    m0 = subseq_align(e0_src, e0_toks, p_src, p_toks)
+    code = set(m0)
+    bad = []
+    stack = []            # per open brace: True if the block is proof/spec context
+    proof_fn_pending = False
+    for j, t in enumerate(p_toks):
+        tx = t.t
+        if tx == 'fn' and j not in code:
+            # annotation-declared fn (spec/proof/lemma or assumed declaration): its body is not crate code
+            proof_fn_pending = True
+        if tx == '{':
+            prev = p_toks[j - 1].t if j else ''
+            ctx = (stack[-1] if stack else False) or prev in ('proof', 'by') or proof_fn_pending or (j not in code and prev in (')', 'implies'))
+            if proof_fn_pending:
+                proof_fn_pending = False
+            stack.append(ctx)
+        elif tx == '}':
+            if stack:
+                stack.pop()
+        elif tx == ';' and proof_fn_pending:
+            proof_fn_pending = False
+        elif tx == 'let' and j not in code:
+            nxt = p_toks[j + 1].t if j + 1 < len(p_toks) else ''
+            if nxt not in ('ghost', 'tracked') and not (stack and stack[-1]):
+                ln = p_src.count('\n', 0, t.s) + 1
+                bad.append((ln, ' '.join(x.t for x in p_toks[j:j + 8])))
+    return bad
+
+
 def unbalanced_annotations(e0_src, p_src):
     """diagnostic for template authors: annotation runs that are not bracket-balanced"""
     e0_toks, p_toks = lex(e0_src), lex(p_src)
